@@ -265,6 +265,7 @@ static void run_script(int from, int to)
 	int i;
 	for (i = from; i < to; i++) {
 		if (vf_param[6] > 0 && i >= vf_param[6]) break;
+		if (case_aborted) break;
 		if (vf_param[7] > 0 && i == vf_param[7] - 1) continue;
 		if (vf_verbose) vf_log("  op %d kind %d a=%d b=%d c=%d d=%d n=%d t=%f\n", i, ops[i].kind, ops[i].a, ops[i].b, ops[i].c, ops[i].d, ops[i].n, ops[i].t);
 		exec_op(&ops[i]);
